@@ -11,6 +11,7 @@
    one more law, needed for reads with an EMPTY buffer only: the decoder does not ask for more
    input once a complete stream has been offered (NoNmiAtEnd; observed on the real decoder
    by job c08-stack, true of the toy decoder). *)
+From MLA Require Import Limit.
 From MLA Require Import Base Stream CompLayer CompLayerProofs CompFailSafe CompFailSafeProofs
   CompFailSafeStep CompLayerS CompLayerSProofs.
 From Coq Require Import ZifyBool ZifyNat ZifyN.
@@ -43,6 +44,7 @@ Qed.
 
 Section Refine.
   Variables BLOCK LIMIT : N.
+  Local Hint Extern 0 Limit => exact LIMIT : typeclass_instances.
   Hypothesis HB : 0 < BLOCK.
   Hypothesis HB32 : BLOCK < 2 ^ 32.
   Variable dstate : Type.
